@@ -21,6 +21,7 @@ THEOREMS = [
     "Nix.C19.C19_roundtrip_source_formats",
     "Nix.C19.C19_no_unguarded_stamp",
     "Nix.C19.C19_unguarded_would_stamp",
+    "Nix.C19.C19_switch_off_call_unchanged",
     "Nix.C19.C19_stamp_sites",
     "Nix.C19.C19_foreign_calls",
     "Nix.C19.C19_no_foreign_elsewhere",
@@ -73,8 +74,12 @@ ASSUMPTIONS = [
     "differential runs; one operation reads one clock value",
     "on which paths of which setter the auto-update idiom runs is regenerated from the source on every run "
     "(Generated/Setters.lean: outcomes = exit x touch state per member, an over-approximation of the real paths: "
-    "conditions are not interpreted, every statement that calls / subscripts / deletes is a possible raise point, "
-    "methods of other objects are assumed not to touch this object's stamps); a call of the model takes one of these "
+    "conditions are not interpreted, every statement that calls / subscripts / deletes is a possible raise point; a "
+    "path that runs `self.force_updated_at()` outside the switch test is the touch state `always`, which the model "
+    "follows also with the switch off - the source has none: C19_no_unguarded_stamp; methods of other objects do not "
+    "touch THIS object's stamps - which stamping members a body invokes on OTHER objects is the generated "
+    "`Member.foreign`, by name, and the member sweep with the switch on compares what every public member of every "
+    "class really stamps with outcomes + foreign); a call of the model takes one of these "
     "outcomes, the harness does not observe which path the implementation took (it says accepted / refused, the driver "
     "picks the outcome, and refuses to predict when the returning paths of a member disagree); that a setter's "
     "validation precedes its write, and what a creation leaves when the clock is outside the years 1..9999, is covered "
@@ -84,9 +89,10 @@ ASSUMPTIONS = [
     "fresh and kept handles",
     "creation: the translator reads the statements of create_new / create_* that concern the new entity (super chain, "
     "force calls, setters and methods run on it, anything naming the machinery); conditions are not interpreted (a "
-    "setter under a condition may or may not have run); copies made with copy_from= are modelled for the kinds that "
-    "own no entities (arrays, frames, properties: `Op.copy`, the copy carries the stamps of its source); they occur in "
-    "the scene of the value matrix (as the other value of link attributes), not in the random histories",
+    "setter under a condition may or may not have run); copies (create_*(copy_from=...), copy_section) are modelled "
+    "for every copyable kind with everything the source owns (`Op.copy`: the copies carry the stamps of their "
+    "sources, the k-th copy those of the k-th member of the source's subtree); they occur in the scene of the value "
+    "matrix and in the random histories; links of the copies (which object a copied tag refers to) are not modelled",
     "a call on a sub-object is modelled as a call on behalf of an entity: dimension setters / link methods on behalf of "
     "the array that owns the dimension, the label / unit setters of a LINKED dimension (DimensionLink) on behalf of the "
     "linked data object; which object a link points to is not modelled (the harness names it)",
@@ -102,7 +108,10 @@ TRUSTED_EXTRA = ["harness/extract/setters.py recognises the idiom `if self.file.
                  "verifies the shape of force_created_at / force_updated_at, renders the body shape of the created_at / "
                  "updated_at getters and Python's MRO; classifies every place of nixio/**/*.py that names the switch "
                  "(switchUses); renders the steps every create_new class method, every create_* factory and "
-                 "File.__init__ perform on the new entity's stamps (Generated/Creation.lean)",
+                 "File.__init__ perform on the new entity's stamps (Generated/Creation.lean); lists the stamping "
+                 "member names every body invokes on objects other than the bare `self` (Member.foreign, closure over "
+                 "calls through self) and every place of nixio/**/*.py that names the machinery, classified by where it "
+                 "stands (stampSites)",
                  "harness/extract/timeshape.py recognises the bodies of util.time_to_str / str_to_time statement by "
                  "statement and renders the strftime / strptime format strings as piece lists and the epoch date "
                  "(Generated/TimeShape.lean)"]
@@ -403,22 +412,49 @@ class Session:
         if kind == "feature" and isinstance(args.get("data"), int):
             self.keep_handle(args["data"], "feature.data", o.data)
 
+    def subtree(self, root):
+        """the live entities `root` owns (transitively), `root` first, in index order (owners precede what they own)"""
+        inside = {root}
+        for i, x in enumerate(self.ents):
+            if i > root and x["alive"] and x["parent"] in inside and x["kind"] != "file":
+                inside.add(i)
+        return sorted(inside)
+
     def do_copy(self, src, parent, args):
-        """owner.create_<kind>(name, copy_from=<entity src>): the copy keeps the id of its source by default"""
+        """owner.create_<kind>(name, copy_from=<entity src>) / owner.copy_section(src, name=...): the copy keeps the id
+        of its source by default; what the source owns (features of a tag, everything inside a block, sub-sections
+        and properties of a section) is copied with it - every copy is entered, in the order of the sources"""
         p = self.fetch(parent)
         x = self.fetch(src)
         kind = self.ents[src]["kind"]
-        kw = {} if args.get("keep_id", True) else {"keep_copy_id": False}
-        if kind == "data_array":
-            o = p.create_data_array(args["name"], copy_from=x, **kw)
-        elif kind == "data_frame":
-            o = p.create_data_frame(args["name"], copy_from=x, **kw)
+        keep = args.get("keep_id", True)
+        kw = {} if keep else {"keep_copy_id": False}
+        if kind in ("data_array", "data_frame", "tag", "multi_tag", "block"):
+            o = getattr(p, "create_" + kind)(args["name"], copy_from=x, **kw)
         elif kind == "property":
             o = p.create_property(args["name"], copy_from=x, **kw)
+        elif kind == "section":
+            o = p.copy_section(x, name=args["name"], **({} if keep else {"keep_id": False}))
         else:
             raise RuntimeError("copies of %s are not modelled" % kind)
-        self.ents.append({"kind": kind, "parent": parent, "alive": True, "name": o.name, "id": o.id})
-        self.keep_handle(len(self.ents) - 1, "returned by create_%s(copy_from=...)" % kind, o)
+        sub = self.subtree(src)
+        base = len(self.ents)
+        mapped = {}
+        for k, i in enumerate(sub):
+            e = self.ents[i]
+            np_ = parent if i == src else mapped[e["parent"]]
+            mapped[i] = base + k
+            ent = {"kind": e["kind"], "parent": np_, "alive": True, "name": o.name if i == src else e["name"],
+                   "id": None}
+            self.ents.append(ent)
+            if i == src:
+                ent["id"] = o.id
+            elif e["kind"] == "feature":
+                pos = [ft.id for ft in self.fetch(e["parent"]).features].index(e["id"])
+                ent["id"] = self.fetch(np_).features[pos].id
+            else:
+                ent["id"] = self.fetch(base + k).id
+        self.keep_handle(base, "returned by create_%s(copy_from=...)" % kind, o)
 
     def do_call(self, e, via, m, inp, args):
         nix = _nix()
@@ -1184,6 +1220,60 @@ class Gen:
         self.count("create.%s.%s" % (kind, inp))
         return ["create", kind, parent, inp, args]
 
+    COPY_INTO = {"data_array": "block", "data_frame": "block", "tag": "block", "multi_tag": "block",
+                 "property": "section", "section": ("file", "section"), "block": "file"}
+
+    def subtree(self, root):
+        inside = {root}
+        for i, x in enumerate(self.ents):
+            if i > root and x["alive"] and x["parent"] in inside and x["kind"] != "file":
+                inside.add(i)
+        return sorted(inside)
+
+    def shadow_copy(self, src, parent, name):
+        """the shadow of what a copy adds: a copy of every entity of the subtree, owner and links (dimension links,
+        link lists) inside the subtree redirected to the copies"""
+        sub = self.subtree(src)
+        base = len(self.ents)
+        mapped = {i: base + k for k, i in enumerate(sub)}
+        for i in sub:
+            e = self.ents[i]
+            c = {k: v for k, v in e.items() if k != "dimlist"}
+            c["parent"] = parent if i == src else mapped[e["parent"]]
+            if i == src:
+                c["name"] = name
+            if "dimlist" in e:
+                c["dimlist"] = [{"cls": d["cls"], "link": mapped.get(d["link"], d["link"])} for d in e["dimlist"]]
+            self.ents.append(c)
+        for (o, cont, x) in list(self.links):
+            if o in mapped:
+                self.links.add((mapped[o], cont, mapped.get(x, x)))
+        return len(sub)
+
+    def op_copy(self, kinds=("data_array", "data_frame", "property", "tag", "multi_tag", "section", "block")):
+        c = [i for i in self.alive() if self.ents[i]["kind"] in kinds and len(self.subtree(i)) <= 8]
+        if not c:
+            return None
+        src = self.rng.choice(c)
+        kind = self.ents[src]["kind"]
+        into = self.COPY_INTO[kind]
+        owners = [i for i in self.alive() if self.ents[i]["kind"] in ((into,) if isinstance(into, str) else into)
+                  and i not in self.subtree(src)]
+        if kind not in ("section", "property", "block"):
+            # (links of a tag / array are to objects of its own block: stay inside it)
+            owners = [i for i in owners if i == self.block_of(src)]
+        if not owners:
+            return None
+        parent = self.rng.choice(owners)
+        name = self.word()
+        n = self.shadow_copy(src, parent, name)
+        self.count("copy.%s" % kind)
+        self.dist["copy.entities_copied"] = self.dist.get("copy.entities_copied", 0) + n
+        args = {"name": name}
+        if self.rng.random() < 0.3:
+            args["keep_id"] = False
+        return ["copy", src, parent, args]
+
     def op_call(self, target=None, entry=None):
         cands = [i for i in self.alive() if CATALOGUE[self.ents[i]["kind"]]]
         if not cands:
@@ -1310,8 +1400,10 @@ class Gen:
             op = None
             if r < 0.20:
                 op = self.op_clock()
-            elif r < 0.30:
+            elif r < 0.27:
                 op = None if self.clock_bad else self.op_create()
+            elif r < 0.30:
+                op = self.op_copy()
             elif r < 0.78:
                 op = self.op_call()
             elif r < 0.88:
@@ -1390,7 +1482,11 @@ def scene_ops(clock, auto, copies=False):
         # entities which compare equal to their sources and carry their time stamps; 21: a copy of array 6, new id
         [["set_clock", clock + 5], ["call", 5, None, "label", "good", {"how": "set", "value": "before the copy"}],
          ["set_clock", clock + 9], ["copy", 5, 1, {"name": "a2 copy"}], ["copy", 7, 1, {"name": "f1 copy"}],
-         ["copy", 6, 1, {"name": "a3 copy", "keep_id": False}]] if copies else [])
+         ["copy", 6, 1, {"name": "a3 copy", "keep_id": False}],
+         # 22 / 23: a copy of tag 8 and of its feature 13; 24 / 25: a copy of section 2 with its property 12 (the
+         # copies carry the stamps of their sources; copies of whole blocks occur in the random histories)
+         ["copy", 8, 1, {"name": "t1 copy"}], ["copy", 2, 3, {"name": "s1 copy", "keep_id": False}]]
+        if copies else [])
 
 
 # values that differ from the stored one although they compare equal to it (the copy 19 of array 5 has the id of 5):
@@ -1511,8 +1607,7 @@ def shadow_of(ops, rng):
         elif op[0] == "create" and op[3] == "good":
             g.ents.append({"kind": op[1], "parent": op[2], "alive": True, "dims": 0, "name": op[4].get("name")})
         elif op[0] == "copy":
-            g.ents.append({"kind": g.ents[op[1]]["kind"], "parent": op[2], "alive": True, "dims": 0,
-                           "name": op[3].get("name")})
+            g.shadow_copy(op[1], op[2], op[3].get("name"))
     return g
 
 
@@ -1998,6 +2093,100 @@ def oracle_roundtrip(ctx, n):
     return len(ts), fails
 
 
+@contextlib.contextmanager
+def process_timezone(name):
+    """run a block with the process's local time zone set to `name` (the conversion must not depend on it)"""
+    import time as _time
+    old = os.environ.get("TZ")
+    os.environ["TZ"] = name
+    _time.tzset()
+    try:
+        yield
+    finally:
+        if old is None:
+            os.environ.pop("TZ", None)
+        else:
+            os.environ["TZ"] = old
+        _time.tzset()
+
+
+def zone_transitions(name, years):
+    """UTC seconds at which the zone's offset changes (daylight saving switches), found with zoneinfo"""
+    import datetime as _dt
+    import zoneinfo
+    try:
+        z = zoneinfo.ZoneInfo(name)
+    except Exception:
+        return []
+    out = []
+    utc = _dt.timezone.utc
+    for y in years:
+        t = int(_dt.datetime(y, 1, 1, tzinfo=utc).timestamp())
+        end = int(_dt.datetime(y + 1, 1, 1, tzinfo=utc).timestamp())
+        off = lambda x: _dt.datetime.fromtimestamp(x, utc).astimezone(z).utcoffset()
+        while t < end:
+            nxt = min(t + 7 * 86400, end)
+            if off(t) != off(nxt):
+                lo, hi = t, nxt
+                while hi - lo > 1:
+                    mid = (lo + hi) // 2
+                    if off(mid) == off(lo):
+                        lo = mid
+                    else:
+                        hi = mid
+                out.append(hi)
+            t = nxt
+    return out
+
+
+def oracle_roundtrip_zones(ctx):
+    """the round trip and the UTC text in processes whose local time zone is not UTC: seconds around the daylight
+    saving switches of the zone (the repeated and the skipped local hour), the range boundaries and random seconds"""
+    rng = ctx.rng
+    fails = []
+    n = 0
+    zones = ["Europe/Berlin", "America/New_York", "Australia/Lord_Howe", "Asia/Kolkata"]
+    if ctx.quick():
+        zones = [zones[0], rng.choice(zones[1:])]
+    for zone in zones:
+        years = rng.sample(range(1971, 2037), 4 if ctx.quick() else 20)
+        ts = [0, 1, 86399, 86400, T2100 - 1, 951782400, 2147483647, 2147483648]
+        for tr in zone_transitions(zone, years):
+            ts += [tr - 3601, tr - 3600, tr - 1801, tr - 1, tr, tr + 1, tr + 1799, tr + 3599, tr + 3600, tr + 7199]
+        ts += [rng.randrange(0, T2100) for _ in range(50)]
+        with process_timezone(zone):
+            m, f = roundtrip_seconds([t for t in ts if 0 <= t < T2100], " (process time zone %s)" % zone,
+                                     {"TZ": zone})
+        n += m
+        fails += f
+    fails.sort(key=lambda x: "!= t" not in x.what)        # (the round trip itself first)
+    return n, fails
+
+
+def roundtrip_seconds(ts, note="", extra=None):
+    from nixio.util import util as UU
+    fails = []
+    with warnings.catch_warnings():
+        warnings.simplefilter("ignore")
+        for t in ts:
+            inp = ["roundtrip", t] + ([extra] if extra else [])
+            try:
+                s = UU.time_to_str(t)
+                b = UU.str_to_time(s)
+                ss = s.decode() if isinstance(s, bytes) else s
+            except Exception as e:
+                fails.append(Failure("time conversion raised for a whole second in 1970..2100" + note, inp,
+                                     type(e).__name__, t, "util.time_to_str / str_to_time"))
+                continue
+            if b != t:
+                fails.append(Failure("str_to_time(time_to_str(t)) != t" + note, inp, b, t,
+                                     "util.time_to_str / str_to_time"))
+            elif ss != utc_str(t):
+                fails.append(Failure("time_to_str(t) is not the UTC calendar time 'YYYYMMDDTHHMMSS'" + note, inp,
+                                     ss, utc_str(t), "util.time_to_str"))
+    return len(ts), fails
+
+
 def is_scene(op):
     return op[0] == "create" and isinstance(op[-1], dict) and bool(op[-1].get("scene"))
 
@@ -2164,6 +2353,9 @@ def oracle(ctx, broken, hints):
     n, f = oracle_roundtrip(ctx, 20000 if broken else ctx.budget(2000, 20000))
     evals += n
     failures += f
+    n, f = oracle_roundtrip_zones(ctx)
+    evals += n
+    failures += f
     hist = []
     for h in hints[:20]:
         if isinstance(h, dict) and "history" in h:
@@ -2295,6 +2487,10 @@ def replay_failure(ctx, fj):
             if x.site == fj.get("site"):
                 return x
         return fs[0] if fs else None
+    if isinstance(inp, list) and len(inp) == 3 and inp[0] == "roundtrip" and isinstance(inp[2], dict):
+        with process_timezone(inp[2].get("TZ", "UTC")):
+            _, fs = roundtrip_seconds([inp[1]], " (process time zone %s)" % inp[2].get("TZ"), inp[2])
+        return fs[0] if fs else None
     if isinstance(inp, list) and inp and inp[0] == "roundtrip":
         from nixio.util import util as UU
         with warnings.catch_warnings():
@@ -2334,16 +2530,25 @@ MANIFEST = {
                   "clock and the model's creation / open / reopen are exactly that (generated creator, factory and "
                   "File.__init__ shapes), the switch is assigned only by File.__init__ and its own setter (table of "
                   "every use of the switch in nixio/**/*.py) and over any history equals the user's last assignment, "
-                  "so a listed setter still stamps after any history of refused or accepted calls; the getters "
+                  "so a listed setter still stamps after any history of refused or accepted calls; no path of any "
+                  "member of any class writes a stamp outside the switch test (generated touch state `always`, which the "
+                  "model would follow), exactly twelve members invoke a stamping member of another object (generated "
+                  "Member.foreign, pinned), every mention of the machinery in nixio/**/*.py stands in an analysed method, "
+                  "util's definitions, the converter tool or is a read (generated stampSites: nothing at module level, "
+                  "nothing in the HDF5 layer); a copy of an entity with everything it owns carries the stamps of its "
+                  "sources, member by member; the getters "
                   "parse the stored attribute (generated getter shapes: no per-object state), forced stamps read back "
                   "also after reopen, a refused force call changes nothing, forcing one stamp leaves the other.",
     "level_note": "Trusted: Lean kernel; the AST translator for the setter / getter / creator / switch-use tables (its "
                   "flow analysis over-approximates paths; which path a real call takes is not observed); Py.Civil as "
                   "stand-in for CPython's datetime; the differential runs (controlled clock, every setter of every kind "
                   "with every class of value incl. clearing ones, refused creations and calls of every kind each "
-                  "followed by a probe, dimension and linked-dimension setters, all entities' stamps and the File's "
-                  "switch compared after each call on real HDF5 files, read through fresh and kept handles) for the "
-                  "hand-written part of the model.",
+                  "followed by a probe, dimension and linked-dimension setters, copies of every copyable kind, all "
+                  "entities' stamps and the File's switch compared after each call on real HDF5 files, read through fresh "
+                  "and kept handles) for the hand-written part of the model; the member sweep (every public member of "
+                  "every class reachable from the File, found by introspection, called in a scene of contrasting states: "
+                  "with the switch off no stored stamp of a pre-existing entity may change, with it on the changes must "
+                  "fit the generated outcomes / foreign lists).",
     "technique": "Lean 4 proof (decide +kernel day table + induction over operation histories + generated "
                  "path-sensitive setter table, getter / creator / factory / File.__init__ shapes and switch-use table, "
                  "interpreted in Lean) with differential correspondence",
